@@ -280,6 +280,7 @@ impl Tap {
             })),
             clock_ns: Some(Box::new(move || k2.get())),
             yield_point: None,
+            run_scoped: None,
         }));
         verif::set_knob("wal.max_log_size", cfg.max_log_size);
         verif::set_knob("io.bufwriter.capacity", cfg.bufwriter_capacity);
